@@ -18,6 +18,7 @@
 package main
 
 import (
+	"errors"
 	"fmt"
 	"os"
 	"path/filepath"
@@ -74,6 +75,22 @@ func (f finder) AddressesActivity(addrs []cipher.Addresser) ([]bool, error) {
 		out[i] = f[a.String()]
 	}
 	return out, nil
+}
+
+// failingFinder answers like finder until its failAt-th call (from 0), which
+// returns an error.
+type failingFinder struct {
+	set    finder
+	failAt int
+	calls  int
+}
+
+func (f *failingFinder) AddressesActivity(addrs []cipher.Addresser) ([]bool, error) {
+	f.calls++
+	if f.calls > f.failAt {
+		return nil, errors.New("transactions finder unavailable")
+	}
+	return f.set.AddressesActivity(addrs)
 }
 
 // pickActives chooses the activity set for a scan of n addresses starting at
@@ -219,25 +236,77 @@ func runDet(o *Out, r *Rng, n int, dir string, hist Hist, caseJSON map[string][]
 		}
 		fn := fmt.Sprintf("c17det%d.wlt", c)
 		var cur wallet.Wallet
+		opts = append(opts, wallet.OptionCryptoType(crypto.CryptoTypeSha256Xor))
 		cur, err = deterministic.NewWallet(fn, "c17", seed, opts...)
 		if err != nil {
 			return err
 		}
 		var ops, obs, opNames []string
+		lastSeen := 0
 		observe := func() error {
 			es, err := entriesOf(cur)
 			if err != nil {
 				return err
 			}
-			obs = append(obs, Tuple(fmt.Sprint(lastIdx(cur)), strList(addrsOf(es))))
+			if !cur.IsEncrypted() { // Lock blanks lastSeed; it is observed again after Unlock
+				lastSeen = lastIdx(cur)
+			}
+			obs = append(obs, Tuple(fmt.Sprint(lastSeen), strList(addrsOf(es))))
 			return nil
 		}
 		if err := observe(); err != nil {
 			return err
 		}
 		total := func() int { l, _ := cur.EntriesLen(); return l }
-		for k := 2 + r.Intn(6); k > 0; k-- {
-			switch x := r.Intn(10); {
+		// failing and inert operations are part of the alphabet: a scan whose finder
+		// returns an error, generate / scan on a locked wallet (must fail), a count that
+		// does not fit an int, Lock / Unlock; each must leave the derivation state alone
+		locked := false
+		failsOK := true // every operation that must fail returned an error
+		password := []byte("pw-c17")
+		mustFail := func(err error) {
+			if err == nil {
+				failsOK = false
+			}
+			ops = append(ops, "DFailed")
+		}
+		for k := 3 + r.Intn(7); k > 0; k-- {
+			x := r.Intn(14)
+			switch {
+			case x == 10: // scan with a finder that errors
+				_, err := cur.ScanAddresses(uint64(1+r.Intn(5)), &failingFinder{failAt: 0})
+				mustFail(err)
+				opNames = append(opNames, "ScanFinderError")
+			case x == 11 && total() > 0 && !locked: // count >= 2^63: int(n) is negative, nothing is generated
+				_, err := cur.GenerateAddresses(wallet.OptionGenerateN(uint64(1) << 63))
+				if err != nil {
+					return err
+				}
+				ops = append(ops, "DFailed")
+				opNames = append(opNames, "GenHugeN")
+			case x >= 11 && !locked:
+				if err := cur.Lock(password); err != nil {
+					return err
+				}
+				locked = true
+				ops = append(ops, "DLock")
+				opNames = append(opNames, "Lock")
+			case x >= 11 || (locked && x >= 8):
+				u, err := cur.Unlock(password)
+				if err != nil {
+					return err
+				}
+				cur, locked = u, false
+				ops = append(ops, "DUnlock")
+				opNames = append(opNames, "Unlock")
+			case x < 4 && locked:
+				_, err := cur.GenerateAddresses(wallet.OptionGenerateN(uint64(r.Intn(4))))
+				mustFail(err)
+				opNames = append(opNames, "GenLocked")
+			case x < 7 && locked:
+				_, err := cur.ScanAddresses(uint64(1+r.Intn(4)), finder{})
+				mustFail(err)
+				opNames = append(opNames, "ScanLocked")
 			case x < 4:
 				num := r.Intn(5)
 				if total()+num > tableLen-8 {
@@ -277,6 +346,17 @@ func runDet(o *Out, r *Rng, n int, dir string, hist Hist, caseJSON map[string][]
 			}
 			hist.Add("det:" + opNames[len(opNames)-1])
 		}
+		if locked {
+			u, err := cur.Unlock(password)
+			if err != nil {
+				return err
+			}
+			cur = u
+			ops = append(ops, "DUnlock")
+			if err := observe(); err != nil {
+				return err
+			}
+		}
 		// single shot of the same total from a fresh wallet
 		es, err := entriesOf(cur)
 		if err != nil {
@@ -295,7 +375,7 @@ func runDet(o *Out, r *Rng, n int, dir string, hist Hist, caseJSON map[string][]
 			tab[i] = ab(a)
 		}
 		items = append(items, Tuple(strList(tab), Tuple(fmt.Sprint(gn), fmt.Sprint(sn), actCoq(act0)), List(ops), List(obs),
-			strList(addrsOf(fes)), B(coherent(es, true) && fresh.LastSeed() == cur.LastSeed())))
+			strList(addrsOf(fes)), B(coherent(es, true) && fresh.LastSeed() == cur.LastSeed() && failsOK)))
 		caseJSON["det"] = append(caseJSON["det"], map[string]interface{}{
 			"seed": seed, "generateN": gn, "scanN": sn, "ops": strings.Join(ops, " "), "final_entries": len(es)})
 		o.Count("det"+seed+strings.Join(ops, ""), true)
@@ -461,7 +541,13 @@ func runIdx(o *Out, r *Rng, n int, dir string, hist Hist, caseJSON map[string][]
 			}
 			return nil
 		}
-		nops := 2 + r.Intn(6)
+		mustFail := func(err error) {
+			if err == nil {
+				ok = false
+			}
+			ops = append(ops, "IFailed")
+		}
+		nops := 3 + r.Intn(6)
 		if !isXpub {
 			nops += 2
 		}
@@ -470,7 +556,49 @@ func runIdx(o *Out, r *Rng, n int, dir string, hist Hist, caseJSON map[string][]
 			if !isXpub && r.Chance(25) {
 				x = 10
 			}
+			if r.Chance(18) {
+				x = 11 + r.Intn(3)
+			}
 			switch {
+			case x == 11: // scan with a finder that errors at its k-th call (one call per chain)
+				f := &failingFinder{set: finder{}, failAt: r.Intn(nchains)}
+				for j := 0; j < nchains; j++ {
+					for _, a := range pickActives(r, tables[j], lens()[j], 3) {
+						f.set[a] = true
+					}
+				}
+				_, err := cur.ScanAddresses(uint64(1+r.Intn(4)), f)
+				mustFail(err)
+				opNames = append(opNames, "ScanFinderError")
+			case x == 12: // a count the wallet must refuse
+				var err error
+				if isXpub {
+					_, err = cur.GenerateAddresses(wallet.OptionGenerateN(uint64(1) << 32))
+				} else { // account 0 chains hold >= 1 address: length + MaxUint32 overflows uint32
+					gopts := []wallet.Option{wallet.OptionGenerateN(uint64(1)<<32 - 1)}
+					if r.Bool() {
+						gopts = append(gopts, wallet.OptionChange())
+					}
+					_, err = cur.GenerateAddresses(gopts...)
+				}
+				mustFail(err)
+				opNames = append(opNames, "GenBadN")
+			case x == 13: // lock-state operations that must be refused
+				var err error
+				switch {
+				case isXpub && r.Bool():
+					err = cur.Lock(password)
+				case isXpub:
+					_, err = cur.Unlock(password)
+				case locked && r.Bool():
+					err = cur.Lock(password)
+				case locked:
+					_, err = cur.Unlock([]byte("wrong"))
+				default:
+					_, err = cur.Unlock(password)
+				}
+				mustFail(err)
+				opNames = append(opNames, "LockStateRefused")
 			case x == 10 && !locked:
 				if err := cur.Lock(password); err != nil {
 					return err
